@@ -40,4 +40,17 @@ CLAIMS["C14"] = {
             "self-deadlock) is a violation with the wait graph. Sampling of schedules, not exhaustive.",
     "note": "Trusted: the lock model in simrt (Go semantics incl. writer preference), the invariant checker in harness/c14, the model verifier.",
 }
+CLAIMS["C17"] = {
+    "engine": "schedsim", "level": "exploration", "design_ref": "2.5, 4/C17",
+    "technique": "deterministic simulation: seeded interleavings of concurrent requests/handlers/timeouts/cancellations over a simulated transport with delay, loss, duplication and stalled threads; history checked for correlation, bounded duration, no lost in-time reply, no leak, no deadlock",
+    "text": "The real request/response protocol runs on a simulated libp2p host under the deterministic scheduler; the recorded history of calls, attempts (request ids observed on the wire) and response deliveries is checked after the run. "
+            "Stuck detection reports the lock-wait graph and native blocking stacks. Sampling of schedules and fault scripts.",
+    "note": "Trusted: simhost's model of libp2p streams (reliable unless the script drops), the lock model, the history checker. libp2p itself is not executed.",
+}
+CLAIMS["C18"] = {
+    "engine": "schedsim", "level": "exploration", "design_ref": "4/C18, A.7",
+    "technique": "deterministic simulation: seeded sequences of penalties, malformed traffic, rate-limit bursts, clock advances/jumps and dials against a reference ban model, with the gater sweeper and rate-limit reset goroutines under the scheduler",
+    "text": "The real gater, penalty and rate-limit code runs on the simulated host and clock; every gate decision, disconnect and score is compared with a small reference model that has one sweep interval of slack around ban expiry. Sampling.",
+    "note": "Trusted: the ban model (DESIGN A.7), simhost's imitation of the order in which the libp2p swarm consults the gater. Real libp2p is not executed.",
+}
 PENDING = {}
